@@ -20,6 +20,7 @@ type out struct {
 	File         string              `json:"file"`
 	Reloaded     map[string]string   `json:"reloaded"`
 	LoadError    string              `json:"load_error,omitempty"`
+	ReloadReset  bool                `json:"reload_reset,omitempty"` // the start-up after the run found the file unusable and reset it to the defaults
 }
 
 func main() {
@@ -53,6 +54,9 @@ func main() {
 	}
 	if cfg2, err := config.LoadOrDefault("var/config.json"); err == nil {
 		o.Reloaded = cfgkit.Vector(cfg2)
+	}
+	if b, err := os.ReadFile("var/config.json"); err == nil && string(b) != o.File {
+		o.ReloadReset = true
 	}
 	json.NewEncoder(os.Stdout).Encode(o)
 }
